@@ -135,6 +135,16 @@ def run(ck):
             ck.corr_problem("traced run of generated configuration", pr, case={"nodes": nodes})
 
     for bi, (name, nodes) in enumerate(bases):
+        # prior history: an ==-equal but differently typed twin is built and run first (a cache keyed by
+        # value equality would hand its classes / ids to the configuration under test); the fresh-process
+        # CLI comparison below is the reference
+        twin = G.type_twin(nodes) if bi % 2 == 0 else None
+        if twin is not None:
+            try:
+                G.observe(twin)
+                stats["type_twins_run_first"] = stats.get("type_twins_run_first", 0) + 1
+            except Exception:  # noqa
+                pass
         try:
             base = G.observe(nodes)
         except G.Mismatch as ex:
@@ -199,7 +209,10 @@ def run(ck):
                 fields = d + (["pipeline_id"] if ob["plid"] != base["plid"] else []) + (["payload"] if pd and not d else [])
                 sig, what = attribute(nodes, base, kind, fields, rng)
                 ck.fail_input(sig, what, {"kind": "rewrite", "nodes": nodes, "yaml": text, "base_yaml": base_text, "fields": fields})
-        if len(cli_jobs) < n_cli * 12 and bi < n_cli + 2 and not any("Verif" in json.dumps(n) for n in nodes):
+        want_cli = bi < n_cli + 2 or (twin is not None and stats.get("twin_cli", 0) < (24 if thorough else 5))
+        if twin is not None and want_cli:
+            stats["twin_cli"] = stats.get("twin_cli", 0) + 1
+        if len(cli_jobs) < n_cli * 12 + 60 and want_cli and not any("Verif" in json.dumps(n) for n in nodes):
             for kind, text in texts[:1] + texts[-1:]:
                 for di, d in enumerate(dirs):
                     fpath = os.path.join(d, "c_%d_%s.yaml" % (bi, kind))
